@@ -51,10 +51,16 @@ def build_runs(tier, seed):
             ms = sqltok.mutants(s, rnd, 2)
             texts.extend(m for _, m in ms)
         runs.append({'kind': 'interleaved', 'texts': texts, 'build_every': 3})
+    # (a valid text ends every such history: whatever the rejected texts left behind must not keep it from being accepted)
+    tail = lambda k: 'CREATE TABLE Q%d (Id INTEGER, Nm STRING);\nINSERT INTO Q%d VALUES (%d, \'t\');\n' % (k, k, k)
     for k in range(40 if tier == 'quick' else 1500):
-        runs.append({'kind': 'soup', 'texts': [sqltok.soup(rnd, rnd.randint(1, 40)) for _ in range(4)], 'build_every': 2})
+        runs.append({'kind': 'soup', 'texts': [sqltok.soup(rnd, rnd.randint(1, 40)) for _ in range(4)] + [tail(k)], 'build_every': 2})
     for k in range(40 if tier == 'quick' else 1500):
-        runs.append({'kind': 'noise', 'texts': [sqltok.noise(rnd, rnd.randint(1, 300)) for _ in range(3)], 'build_every': 3})
+        runs.append({'kind': 'noise', 'texts': [sqltok.noise(rnd, rnd.randint(1, 300)) for _ in range(3)] + [tail(k)], 'build_every': 2})
+    # an illegal character in front of a syntax error, a truncated string, an illegal cardinality; then valid texts
+    for k, bad in enumerate(['$ CREATE TABEL X (Id INTEGER);', "INSERT INTO X VALUES (1, 'abc", '\ufeffCREATE TABLE (;',
+                             '# CREATE ROP REF_ID R1 FROM 2 A (X) TO 1 B (Y);', '@' * 12 + ' INSERT INTO', '\x00 CREATE', '"unterminated CREATE TABLE']):
+        runs.append({'kind': 'noise', 'texts': [tail(100 + k), bad, tail(200 + k), bad, bad, tail(300 + k)], 'build_every': 1})
     # adversarial sizes for the time bound
     runs.append({'kind': 'long', 'texts': ["INSERT INTO X VALUES ('" + "a''" * 20000 + "');", '-- ' + 'x' * 100000,
                                            "'" + 'b' * 50000, '"' + 'c' * 50000, '(' * 3000, '1' * 5000 + '.'],
